@@ -31,6 +31,9 @@ pub enum Error {
     InvalidFloat,
     ExpectBinOpToken,
     TooDeep,
+    DivideByZero,
+    Overflow,
+    InvalidShiftCount,
 }
 
 #[cfg(not(tarpaulin_include))]
@@ -69,6 +72,9 @@ impl fmt::Display for Error {
             InvalidFloat => write!(f, "invalid float"),
             ExpectBinOpToken => write!(f, "expect bin op token"),
             TooDeep => write!(f, "expression nested too deep"),
+            DivideByZero => write!(f, "divide by zero"),
+            Overflow => write!(f, "arithmetic overflow"),
+            InvalidShiftCount => write!(f, "invalid shift count"),
         }
     }
 }
